@@ -500,7 +500,9 @@ class _TotalJacInfo(object):
                                                           return_format)
         
         # Store which VOIs require unit scaling if we're computing an optimization jacobian.
-        if not has_custom_derivs:
+        # (The jacobian of the driver's linear constraints is requested with an 'of' list that
+        # differs from the nonlinear responses, but it is an optimization jacobian too.)
+        if not has_custom_derivs or all_lin_cons:
             self._identify_unit_active_vars()
 
         # Apply explicit unit conversions requested by the functional API.
